@@ -227,7 +227,11 @@ def run(ctx):
             except Exception as e:
                 bad = t.failed("edit raised %r" % (e,), document=doc, kind=kind, operations=ops)
                 break
-            out = d.dump()
+            try:
+                out = rm.dump_every_way(d)
+            except AssertionError as e:
+                bad = t.failed(str(e), document=doc, kind=kind, operations=ops)
+                break
             try:
                 d2 = repro.parse_deb822_file(out.splitlines(True))
                 p2 = next(iter(d2))
